@@ -41,6 +41,55 @@ theorem combineStory_denotes {s1 s2 : List Act} (h1 : ∀ a ∈ s1, Wf a) (h2 : 
     ∀ x ∈ combineStory s1 s2, Wf x :=
   ⟨combineStory_columns h1 h2, (combineStory_wf_cols s1 s2 h1 h2).1⟩
 
+theorem zipLong_nil (xs : List (List Char)) : zipLong xs [] = xs := by cases xs <;> rfl
+
+/-- the column-wise union is associative … -/
+theorem zipLong_assoc (xs ys zs : List (List Char)) :
+    zipLong (zipLong xs ys) zs = zipLong xs (zipLong ys zs) := by
+  induction xs generalizing ys zs with
+  | nil => rfl
+  | cons x xs ih =>
+    cases ys with
+    | nil => rfl
+    | cons y ys =>
+      cases zs with
+      | nil => rfl
+      | cons z zs => simp only [zipLong, List.append_assoc, ih]
+
+/-- … and so is the act-wise union of storylines. -/
+theorem zipActs_assoc (xs ys zs : List (List (List Char))) :
+    zipActs (zipActs xs ys) zs = zipActs xs (zipActs ys zs) := by
+  induction xs generalizing ys zs with
+  | nil => rfl
+  | cons x xs ih =>
+    cases ys with
+    | nil => rfl
+    | cons y ys =>
+      cases zs with
+      | nil => rfl
+      | cons z zs => simp only [zipActs, zipLong_assoc, ih]
+
+/-- **The grouping of merges does not matter**: three acts merged left to right (what successive `storyline`
+clauses do) or right to left denote the same columns — the same scenes at the same times, in the same order
+within a column.  (The merged *texts* may differ in `.` place holders; what is performed does not.) -/
+theorem columns_comb_assoc {a b c : List Char} (ha : Wf a) (hb : Wf b) (hc : Wf c) :
+    columns (comb (comb a b) c) = columns (comb a (comb b c)) := by
+  rw [columns_comb (comb_wf ha hb) hc, columns_comb ha hb, columns_comb ha (comb_wf hb hc), columns_comb hb hc,
+    zipLong_assoc]
+
+/-- … and the same for whole storylines. -/
+theorem combineStory_assoc {s1 s2 s3 : List Act} (h1 : ∀ a ∈ s1, Wf a) (h2 : ∀ b ∈ s2, Wf b) (h3 : ∀ c ∈ s3, Wf c) :
+    (combineStory (combineStory s1 s2) s3).map columns = (combineStory s1 (combineStory s2 s3)).map columns := by
+  have h12 := combineStory_denotes h1 h2
+  have h23 := combineStory_denotes h2 h3
+  rw [(combineStory_denotes h12.2 h3).1, h12.1, (combineStory_denotes h1 h23.2).1, h23.1, zipActs_assoc]
+
+/-- merging with the empty act or the empty storyline changes nothing (no clause yet / a clause with fewer acts) -/
+theorem comb_nil_columns {a : List Char} (ha : Wf a) :
+    columns (comb a []) = columns a ∧ comb [] a = a := by
+  refine ⟨?_, by simp [comb]⟩
+  rw [columns_comb ha Wf.nil, show columns [] = [] from rfl, zipLong_nil]
+
 -- the manual's example, and `.`+x
 example : comb "..a".toList "a".toList = "a.a".toList := by simp [comb, extract, more, piece]
 example : comb ".+a.".toList "b+.".toList = ".+a+b+..".toList := by simp [comb, extract, more, piece]
